@@ -312,29 +312,65 @@ def random_script(rng, table, length):
 STATE_INVARIANTS = ["TypeOK", "CompleteIsConsistent", "PartialIsLeftover", "NamesAreOwn"]
 STEP_THEOREMS = ["ReturnedDescribesDiskAsBuilt", "CurrentCallOnly", "MethodIsFunction", "Idempotent", "OwnDirectoryOnly", "ServedIsBuilder",
                  "OutDirRule"]
-STATIC_THEOREMS = ["MethodIgnoresTheRest", "AutoMonotone", "TouchedAgrees", "TilingAgrees"]
+STATIC_THEOREMS = ["PlanIsAnalyse(Cmds)", "MethodIgnoresTheRest(Cmds)", "AutoMonotone(Cmds)", "TouchedAgrees(Cmds)", "TilingAgrees(Cmds)"]
 # statements the code does not keep (TLC must refute each), as invariants of LastSpec ...
 REFUTED = ["ReturnedDescribesDisk", "ServedIsRequested", "ServedProjectionIsChosen", "FailedCallChangesNothing", "NoPartialDirectory",
            "TileReturnsSelf"]
 # ... and as negated assumptions of the state-independent table
-REFUTED_STATIC = ["AutoUsesTrueExtent", "DerivedNamesIdeal(Paths)"]
+REFUTED_STATIC = ["AutoUsesTrueExtent(Cmds)", "DerivedNamesIdeal(Paths)"]
+
+
+def core_key(c):
+    return (c["files"], c["hdu"], c["key"], c["blank"], c["method"])
 
 
 def mc_module(name, tables, table, scripts=None, assumes=(), extra=()):
+    """The data tables, the calls, and - after them, so that TLC tabulates it with the data already tabulated - the Plan.
+    Calls that differ in out_dir / override only share one AnalyseCore."""
     defs = list(tables)
+    cores, cidx = [], {}
+    for c in table:
+        if core_key(c) not in cidx:
+            cidx[core_key(c)] = len(cores) + 1
+            cores.append(c)
+    defs.append(("MCCoreTable", "<<" + ",\n  ".join(call_tla(c) for c in cores) + ">>"))
+    defs.append(("MCCoreOf", tla.lit(tuple(cidx[core_key(c)] for c in table))))
     defs.append(("MCCmdTable", "<<" + ",\n  ".join(call_tla(c) for c in table) + ">>"))
+    defs.append("MCCorePlan == [j \\in DOMAIN MCCoreTable |-> AnalyseCore(MCCoreTable[j])]")
+    defs.append("MCPlan == [k \\in DOMAIN MCCmdTable |-> Finish(MCCorePlan[MCCoreOf[k]], MCCmdTable[k])]")
+    defs.append("MCDirIds == {MCPlan[k].dir : k \\in DOMAIN MCCmdTable} \\ {<<>>}")
+    defs.append("ASSUME \\A k \\in DOMAIN MCCmdTable : CoreOf(MCCmdTable[k]) = CoreOf(MCCoreTable[MCCoreOf[k]])")
+    canon = {}
+    for k, c in enumerate(table):
+        canon.setdefault(call_key(c)[:-1], k + 1)
+    defs.append(("MCCanon", tla.lit(tuple(canon[call_key(c)[:-1]] for c in table))))
+    defs.append("ASSUME CanonOK(Cmds)")
     if scripts is not None:
         defs.append(("MCScripts", "{" + ", ".join(tla.lit(tuple(k + 1 for k in s)) for s in scripts) + "}"))
     defs.append("Paths == {PathOf[f] : f \\in Files}")
     defs.append("ASSUME \\A k \\in Cmds : Modelled(CmdTable[k])")
     defs += ["ASSUME %s" % a for a in assumes]
     defs += list(extra)
-    return tla.module(name, ["MCFitsTiler"], defs)
+    # TLC tabulates a parameterless constant definition once - except the definition a cfg substitution (X <- MCX) names,
+    # which it re-evaluates at every use of X: the substituted names are made aliases of tabulated definitions
+    out = []
+    for d in defs:
+        if isinstance(d, str) and d.startswith("MC") and " == " in d:
+            d = tuple(d.split(" == ", 1))
+        if not isinstance(d, str) and d[0] in SUBSTITUTED:
+            out.append((d[0] + "Tab", d[1]))
+            out.append((d[0], d[0] + "Tab"))
+        else:
+            out.append(d)
+    return tla.module(name, ["MCFitsTiler"], out)
+
+
+SUBSTITUTED = ("MCFiles", "MCPathOf", "MCHdus", "MCCmdTable", "MCPlan", "MCDirIds", "MCCanon", "MCScripts")
 
 
 def cfg(spec, maxcalls, invariants, scripts=False, view=False, clears=True):
     lines = ["SPECIFICATION %s" % spec, "CONSTANTS", " Files <- MCFiles", " PathOf <- MCPathOf", " Hdus <- MCHdus", " Marker = %d" % MARKER,
-             " CmdTable <- MCCmdTable", " MaxCalls = %d" % maxcalls, " OverrideClears = %s" % ("TRUE" if clears else "FALSE"),
+             " CmdTable <- MCCmdTable", " Plan <- MCPlan", " DirIds <- MCDirIds", " Canon <- MCCanon", " MaxCalls = %d" % maxcalls, " OverrideClears = %s" % ("TRUE" if clears else "FALSE"),
              " Scripts <- MCScripts" if scripts else " Scripts = {}"]
     lines += ["INVARIANT %s" % i for i in invariants]
     if view:
@@ -763,7 +799,7 @@ def run(ctx):
             name = "MCG04Rows"
             outp = os.path.join(ctx.scratch, "rows.json")
             mod = mc_module(name, tables, choice, assumes=STATIC_THEOREMS + ["DerivedNames(Paths)"] + ["~%s" % s for s in REFUTED_STATIC],
-                            extra=["ASSUME JsonSerialize(IOEnv.OUT, [rows |-> Rows, dirids |-> DirIds])"])
+                            extra=["ASSUME JsonSerialize(IOEnv.OUT, [rows |-> RowsOf(Cmds), dirids |-> DirIds])"])
             mod = mod.replace("EXTENDS MCFitsTiler", "EXTENDS MCFitsTiler, IOUtils")
             r = ctx.tlc(name, extra={name + ".tla": mod}, cfg_text=cfg("AllSpec", 0, STATE_INVARIANTS), env={"OUT": outp}, workers=1, timeout=900)
             return r, json.load(open(outp))
@@ -785,7 +821,7 @@ def run(ctx):
 
         def tlc_all(table, bound, tag, static):
             name = "MCG04All" + tag
-            return ctx.tlc(name, extra={name + ".tla": mc_module(name, tables, table, assumes=STATIC_THEOREMS if static else ())},
+            return ctx.tlc(name, extra={name + ".tla": mc_module(name, tables, table, assumes=STATIC_THEOREMS[:1] if static else ())},
                            cfg_text=cfg("AllSpec", bound, STATE_INVARIANTS + ["StepTheoremsBounded"], view=True), workers=6 if quick else 10, timeout=14400)
 
         def tlc_refute(inv, clears=True, tag=""):
